@@ -148,6 +148,16 @@ public:
   /// \return StartResult::ok() on success; StartResult::err() on failure.
   StartResult start() override
   {
+    // start() from inside a callback (i.e. on the I/O thread itself) cannot work: while the
+    // engine runs it is "already running", and while another thread's stop() is draining
+    // (_running already false) it would re-create the descriptors under the loop that is
+    // still using them and move-assign _loop while it is joinable -> std::terminate().
+    // Refuse it like the other operations that are not permitted on the I/O thread.
+    if (_loop.joinable() && std::this_thread::get_id() == _loop.get_id())
+    {
+      return StartResult::err(TransportErrorInfo{
+        TransportError::Config, "start() called from the I/O thread (inside a callback) - not permitted"});
+    }
     bool exp = false;
     if (!_running.compare_exchange_strong(exp, true))
     {
